@@ -26,20 +26,29 @@ theorem trunc0 (x : GSlice Int32) :
   ⟨gslice_ok x 0 (0 : Int) 0 0 rfl rfl (Nat.le_refl 0) (Nat.zero_le _), by simp [absI32, GSlice.data],
     by unfold GWF; simp⟩
 
-/-- the three statements `s.sa = s.sa[:0]; s.isa = s.isa[:0]; s.bits.clear()` -/
-theorem drop_dict (s : Gen.gsap) (hbs : BSWF s.bits) {β : Type} (F : Gen.gsap → Res β) :
-    ∃ s', (Res.bind (GSlice.slice s.sa 0 (0 : Int)) fun t_2 =>
-        Res.bind (GSlice.slice s.isa 0 (0 : Int)) fun t_3 =>
-        Res.bind (bitset_clear s.bits) fun r_4 => F { s with sa := t_2, isa := t_3, bits := r_4 }) = F s' ∧
-      s'.ParserBuffer = s.ParserBuffer ∧ s'.GSAPConfig = s.GSAPConfig ∧ ofGW s' = (ofGW s).reset ∧
-      s'.sa.len = 0 ∧ s'.isa.len = 0 ∧ GWF s'.sa ∧ GWF s'.isa ∧ BSWF s'.bits := by
+/-- `x[:0]` evaluates (the first part of `trunc0` as a rewrite rule) -/
+theorem trunc0_eq (x : GSlice Int32) :
+    GSlice.slice x 0 (0 : Int) = Res.ok { arr := x.arr.drop 0, len := 0 - 0 } := (trunc0 x).1
+
+/-- the parser after the three statements `s.sa = s.sa[:0]; s.isa = s.isa[:0]; s.bits.clear()` — in whatever order the
+    Go text has them (the three fields are independent); `b1` is the cleared bitset -/
+@[reducible] def dropped (s : Gen.gsap) (b1 : Gen.bitset) : Gen.gsap :=
+  ⟨s.ParserBuffer, { arr := s.sa.arr.drop 0, len := 0 - 0 }, { arr := s.isa.arr.drop 0, len := 0 - 0 }, b1,
+    s.GSAPConfig⟩
+
+/-- what is known about `dropped`: the text of the three statements is not mentioned, the proofs below evaluate it as
+    it comes (`trunc0_eq`, the `clear` equation, `bind_ok`) -/
+theorem drop_facts (s : Gen.gsap) (hbs : BSWF s.bits) :
+    ∃ b1, bitset_clear s.bits = Res.ok b1 ∧ ofGW (dropped s b1) = (ofGW s).reset ∧
+      GWF (dropped s b1).sa ∧ GWF (dropped s b1).isa ∧ BSWF b1 := by
   obtain ⟨b1, r5, a5, w5⟩ := gen_bitset_clear s.bits hbs
-  refine ⟨⟨s.ParserBuffer, { arr := s.sa.arr.drop 0, len := 0 - 0 }, { arr := s.isa.arr.drop 0, len := 0 - 0 }, b1,
-    s.GSAPConfig⟩, ?_, rfl, rfl, ?_, rfl, rfl, (trunc0 s.sa).2.2, (trunc0 s.isa).2.2, w5⟩
-  · rw [(trunc0 s.sa).1, bind_ok, (trunc0 s.isa).1, bind_ok, r5, bind_ok]
-  · show ({ sa := absI32 _, isa := absI32 _, bits := ofBS b1 } : GsapDW) = _
-    rw [(trunc0 s.sa).2.1, (trunc0 s.isa).2.1, a5]
-    rfl
+  refine ⟨b1, r5, ?_, (trunc0 s.sa).2.2, (trunc0 s.isa).2.2, w5⟩
+  show ({ sa := absI32 _, isa := absI32 _, bits := ofBS b1 } : GsapDW) = _
+  rw [(trunc0 s.sa).2.1, (trunc0 s.isa).2.1, a5]
+  rfl
+
+/-- decide the FIRST `if` of the goal from the context by omega, whatever the spelling of its test and whichever arm -/
+local macro "gi_ite" : tactic => `(tactic| first | rw [if_pos (by omega)] | rw [if_neg (by omega)])
 
 /-- **`Reset(data)`** -/
 theorem gen_gsap_reset (s : Gen.gsap) (hpb : PBWF s.ParserBuffer) (hbs : BSWF s.bits) (data : Slice) (hdat : SWF data) :
@@ -50,16 +59,24 @@ theorem gen_gsap_reset (s : Gen.gsap) (hpb : PBWF s.ParserBuffer) (hbs : BSWF s.
       (e = Gen.Err.ok → ofGW s' = (ofGW s).reset ∧ s'.sa.len = 0 ∧ s'.isa.len = 0 ∧ GWF s'.sa ∧ GWF s'.isa) ∧
       (e ≠ Gen.Err.ok → s'.sa = s.sa ∧ s'.isa = s.isa ∧ s'.bits = s.bits) := by
   obtain ⟨b', e, hb, hof, herr, hwf⟩ := gen_pbuf_reset s.ParserBuffer hpb data hdat
-  unfold gsap_Reset
-  rw [hb, bind_ok]
+  -- the test on the error is decided in either spelling (`err != nil`, `nil == err`, `err == nil` with swapped arms)
   by_cases he : e = Gen.Err.ok
-  · simp only [he, ne_eq, not_true_eq_false, if_false]
-    obtain ⟨s', h1, h2, h3, h4, h5, h6, h7, h8, h9⟩ := drop_dict { s with ParserBuffer := b' } hbs
-      (fun t => Res.ok (t, Gen.Err.ok))
-    refine ⟨s', Gen.Err.ok, h1, by rw [h2]; exact hof, by rw [← he]; exact herr, by rw [h2]; exact hwf, h3, h9,
-      fun _ => ⟨h4, h5, h6, h7, h8⟩, fun hc => absurd rfl hc⟩
-  · simp only [he, ne_eq, not_false_eq_true, if_true]
-    exact ⟨_, e, rfl, hof, herr, hwf, rfl, hbs, fun hc => absurd hc he, fun _ => ⟨rfl, rfl, rfl⟩⟩
+  · subst he
+    obtain ⟨b1, r5, h4, h7, h8, h9⟩ := drop_facts { s with ParserBuffer := b' } hbs
+    have r5' : bitset_clear s.bits = Res.ok b1 := r5
+    refine ⟨dropped { s with ParserBuffer := b' } b1, Gen.Err.ok, ?_, hof, herr, hwf, rfl, h9,
+      fun _ => ⟨h4, rfl, rfl, h7, h8⟩, fun hc => absurd rfl hc⟩
+    unfold gsap_Reset
+    rw [hb, bind_ok]
+    simp only [ne_eq, eq_self, not_true_eq_false, not_false_eq_true, if_true, if_false, trunc0_eq, r5', bind_ok]
+    try rfl
+  · have he' : ¬ Gen.Err.ok = e := fun h => he h.symm
+    refine ⟨{ s with ParserBuffer := b' }, e, ?_, hof, herr, hwf, rfl, hbs, fun hc => absurd hc he,
+      fun _ => ⟨rfl, rfl, rfl⟩⟩
+    unfold gsap_Reset
+    rw [hb, bind_ok]
+    simp only [he, he', ne_eq, eq_self, not_true_eq_false, not_false_eq_true, if_true, if_false]
+    try rfl
 
 /-- **`Shrink()`** -/
 theorem gen_gsap_shrink (s : Gen.gsap) (hpb : PBWF s.ParserBuffer) (hbs : BSWF s.bits)
@@ -71,20 +88,26 @@ theorem gen_gsap_shrink (s : Gen.gsap) (hpb : PBWF s.ParserBuffer) (hbs : BSWF s
         ofGW s' = (ofGW s).reset ∧ s'.sa.len = 0 ∧ s'.isa.len = 0 ∧ GWF s'.sa ∧ GWF s'.isa) ∧
       ((PBuf.shrink (ofPB s.ParserBuffer)).2 = 0 → s'.sa = s.sa ∧ s'.isa = s.isa ∧ s'.bits = s.bits) := by
   obtain ⟨b', hb, hof, hwf⟩ := gen_pbuf_shrink s.ParserBuffer hpb hw
-  unfold gsap_Shrink
-  rw [hb, bind_ok]
-  generalize (PBuf.shrink (ofPB s.ParserBuffer)).2 = d
+  generalize (PBuf.shrink (ofPB s.ParserBuffer)).2 = d at hb ⊢
+  -- the test on `delta` is decided by omega in whatever spelling / arm order (`gi_ite`)
   by_cases hd : d > 0
-  · have hd' : ((d : Nat) : Int) > 0 := by omega
-    simp only [hd', if_true]
-    obtain ⟨s', h1, h2, h3, h4, h5, h6, h7, h8, h9⟩ := drop_dict { s with ParserBuffer := b' } hbs
-      (fun t => Res.ok t)
-    rw [h1, bind_ok]
-    exact ⟨s', rfl, by rw [h2]; exact hof, by rw [h2]; exact hwf, h3, h9, fun _ => ⟨h4, h5, h6, h7, h8⟩,
+  · obtain ⟨b1, r5, h4, h7, h8, h9⟩ := drop_facts { s with ParserBuffer := b' } hbs
+    have r5' : bitset_clear s.bits = Res.ok b1 := r5
+    refine ⟨dropped { s with ParserBuffer := b' } b1, ?_, hof, hwf, rfl, h9, fun _ => ⟨h4, rfl, rfl, h7, h8⟩,
       fun hc => by omega⟩
-  · have hd' : ¬ ((d : Nat) : Int) > 0 := by omega
-    simp only [hd', if_false, bind_ok]
-    exact ⟨_, rfl, hof, hwf, rfl, hbs, fun hc => absurd hc hd, fun _ => ⟨rfl, rfl, rfl⟩⟩
+    unfold gsap_Shrink
+    rw [hb, bind_ok]
+    try dsimp only
+    gi_ite
+    simp only [trunc0_eq, r5', bind_ok]
+    try rfl
+  · refine ⟨{ s with ParserBuffer := b' }, ?_, hof, hwf, rfl, hbs, fun hc => absurd hc hd, fun _ => ⟨rfl, rfl, rfl⟩⟩
+    unfold gsap_Shrink
+    rw [hb, bind_ok]
+    try dsimp only
+    gi_ite
+    try simp only [bind_ok]
+    try rfl
 
 /-- **`init(cfg)`**: the buffer configuration is rejected ⇒ that error, parser unchanged; accepted but the parser
     configuration rejected ⇒ that error, only the buffer initialised; both accepted ⇒ `nil`, the buffer is `PBuf.init`
@@ -105,24 +128,27 @@ theorem gen_gsap_init (s : Gen.gsap) (hbs : BSWF s.bits) (cfg : Gen.GSAPConfig) 
   intro bc
   obtain ⟨hbad, hgood⟩ := gen_pbuf_init s.ParserBuffer bc
   refine ⟨fun hne => ?_, fun hok => ?_⟩
-  · unfold gsap_init
+  · have hne' : ¬ Gen.Err.ok = BufConfig_Verify (BufConfig_SetDefaults bc) := fun h => hne h.symm
+    unfold gsap_init
     simp only []
     rw [hbad hne, bind_ok]
-    simp only [hne, ne_eq, not_false_eq_true, if_true]
+    simp only [hne, hne', ne_eq, eq_self, not_true_eq_false, not_false_eq_true, if_true, if_false]
   · obtain ⟨b', hb, hof, hwf⟩ := hgood hok
     refine ⟨b', hof, hwf, fun hne => ?_, fun hok2 => ?_⟩
-    · unfold gsap_init
-      simp only []
-      rw [hb, bind_ok]
-      simp only [ne_eq, not_true_eq_false, if_false, hne, not_false_eq_true, if_true]
-    · obtain ⟨s', h1, h2, h3, h4, h5, h6, h7, h8, h9⟩ := drop_dict { s with ParserBuffer := b' } hbs
-        (fun t => Res.ok ({ t with GSAPConfig := GSAPConfig_SetDefaults cfg }, Gen.Err.ok))
-      refine ⟨{ s' with GSAPConfig := GSAPConfig_SetDefaults cfg }, ?_, h2, rfl, h4, h5, h6, h7, h8, h9⟩
+    · have hne' : ¬ Gen.Err.ok = GSAPConfig_Verify (GSAPConfig_SetDefaults cfg) := fun h => hne h.symm
       unfold gsap_init
       simp only []
       rw [hb, bind_ok]
-      simp only [ne_eq, not_true_eq_false, if_false, hok2]
-      exact h1
+      simp only [ne_eq, eq_self, not_true_eq_false, not_false_eq_true, if_false, if_true, hne, hne']
+    · obtain ⟨b1, r5, h4, h7, h8, h9⟩ := drop_facts { s with ParserBuffer := b' } hbs
+      have r5' : bitset_clear s.bits = Res.ok b1 := r5
+      refine ⟨{ dropped { s with ParserBuffer := b' } b1 with GSAPConfig := GSAPConfig_SetDefaults cfg }, ?_, rfl, rfl,
+        h4, rfl, rfl, h7, h8, h9⟩
+      unfold gsap_init
+      simp only []
+      rw [hb, bind_ok]
+      simp only [ne_eq, eq_self, not_true_eq_false, not_false_eq_true, if_false, if_true, hok2, trunc0_eq, r5', bind_ok]
+      try rfl
 
 end LZ.GenGSAP
 
